@@ -52,6 +52,7 @@ func (C07) Events(env world.Env, mm mc.Model) []string {
 			}
 		}
 		evs = append(evs, "PostOnce:U1:400:1", "Post:U1:max:1") // the largest size stateless validation accepts
+		evs = append(evs, "PostNegExp:U1:400:1")               // Expires = -1 passes stateless validation
 	}
 	for _, id := range m.Files {
 		fp := strings.Split(id, "|")
@@ -131,7 +132,7 @@ func (C07) Apply(env world.Env, mm mc.Model, ev string) mc.Step {
 		if env.Deliver(storagetypes.NewMsgBuyStorage(a, a, 30, gbs*1_000_000_000, "ujkl")).OK() {
 			st.Outcome = "ok"
 		}
-	case "Post", "PostOnce":
+	case "Post", "PostOnce", "PostNegExp":
 		u := p[1]
 		f := c07Files[p[2]]
 		mp, _ := strconv.ParseInt(p[3], 10, 64)
@@ -139,6 +140,9 @@ func (C07) Apply(env world.Env, mm mc.Model, ev string) mc.Step {
 		msg := storagetypes.NewMsgPostFile(w.A(u).Bech, f.merkle, c07Size[p[2]], 0, 0, mp, "{}")
 		if p[0] == "PostOnce" {
 			msg.Expires = h + 20_000
+		}
+		if p[0] == "PostNegExp" {
+			msg.Expires = -1
 		}
 		// a post at an existing key (same content, owner and block) replaces that file, whose footprint is released
 		var replaced int64
@@ -219,11 +223,6 @@ func (C07) Apply(env world.Env, mm mc.Model, ev string) mc.Step {
 			}
 			if after.used[u] > after.avail[u] {
 				vs = append(vs, viol("space-used-within-purchased", "over", "%s: used %d > available %d after %s", u, after.used[u], after.avail[u], ev))
-			}
-			if r, err := k.GetClientFreeSpace(sdk.WrapSDKContext(env.Ctx()), &storagetypes.QueryClientFreeSpace{Address: w.A(u).Bech}); err == nil {
-				if r.BytesFree != after.avail[u]-after.used[u] {
-					vs = append(vs, viol("free-space-query-consistent", "freespace", "%s: query says %d free, plan says %d-%d", u, r.BytesFree, after.avail[u], after.used[u]))
-				}
 			}
 		}
 	}
